@@ -63,7 +63,7 @@ def _set_entries(net, table, index, preserve_dtypes=True, **entries):
     # first cell is written, otherwise the failing assignment would leave a partial row behind (additional
     # user columns given as keyword arguments may hold lists, e.g. geodata of a valve)
     for col, val in entries.items():
-        if col in net[table].columns and isinstance(val, (list, tuple, set, dict, np.ndarray, pd.Series)):
+        if col in net[table].columns and isinstance(val, Iterable) and not isinstance(val, (str, bytes)):
             raise UserWarning("The value for column %s of a single %s must be a scalar, got %s"
                               % (col, table, type(val).__name__))
     if preserve_dtypes:
